@@ -121,6 +121,19 @@ func genC11(r *Rand, tier string) *Case {
 		return c
 	}
 	c.Variant = "tls-session"
+	if r.Chance(1, 6) {
+		// a handler that produces its result in bursts with pauses in between
+		// (simulated time passes inside the statement): whatever batches, delays
+		// or coalesces output below the session does not change what arrives
+		var ops []Op
+		for b := r.Range(2, 4); b > 0; b-- {
+			ops = append(ops, Op{K: "row", Row: []Val{{G: "string", S: r.Ident(r.PickInt(10, 100, 400))}}, N: r.PickInt(5, 40, 120)})
+			ops = append(ops, Op{K: "sleep", Ms: r.PickInt(1, 6, 60, 1000)})
+		}
+		ops = append(ops, Op{K: "complete", Tag: "SELECT 9 " + canary})
+		c.Programs["bursts"] = &Program{Stmts: []*StmtProg{{Cols: []ColSpec{{Name: "a", OID: pgwire.OIDText}}, Ops: ops}}}
+		cc.Steps = append(cc.Steps[:1], append([]Step{{Msgs: []pgwire.FMsg{{K: "Q", S1: "bursts " + canary}}}}, cc.Steps[1:]...)...)
+	}
 	switch r.Intn(10) {
 	case 0, 1, 2: // plaintext stuffed behind the SSLRequest
 		c.Programs[stuffedKey] = &Program{Stmts: []*StmtProg{{Ops: []Op{{K: "complete", Tag: "STUFFED RAN"}}}}}
@@ -194,7 +207,35 @@ func genC11(r *Rand, tier string) *Case {
 		cc.Cuts = nil
 	}
 	c.Sched = &SchedCase{Strategy: r.Pick("uniform", "pct", ""), Depth: 2, MaxSteps: 400000}
+	if c.Variant == "tls-session" && r.Chance(1, 8) {
+		// three to five earlier peers (whose remote addresses differ in the port
+		// only) ask for TLS and break the negotiation off; they are gone before
+		// the session under test connects, and it is none of its business
+		k := r.Range(3, 5)
+		session := c.Conns[0]
+		c.Conns = nil
+		for i := 0; i < k; i++ {
+			d := ConnCase{Steps: []Step{{Msgs: []pgwire.FMsg{startupMsg("gone", "d")}}}}
+			d.TLS = &TLSClient{AbortAt: r.PickInt(1, 5, 11, 60)}
+			if r.Chance(1, 3) {
+				d.TLS = &TLSClient{MinVer: 0x0301, MaxVer: 0x0302}
+			}
+			c.Conns = append(c.Conns, d)
+			c.Sched.Holds = append(c.Sched.Holds, Hold{Task: 1 + k, Point: "conn.start", Until: 1 + i, UntilPoint: "close"})
+		}
+		c.Conns = append(c.Conns, session)
+		c.Expect["earlier_failed_upgrades"] = k
+	}
 	return c
+}
+
+// c11Target is the index of the connection under test (the last one: earlier
+// ones are peers whose negotiation failed).
+func c11Target(c *Case) int {
+	if _, ok := c.Expect["earlier_failed_upgrades"]; ok {
+		return len(c.Conns) - 1
+	}
+	return 0
 }
 
 // tlsRecordsOK checks that b is a sequence of TLS records.
@@ -279,7 +320,7 @@ func checkC11(x *Exec, c *Case) ([]Violation, bool) {
 		}
 		return viol, true
 	}
-	if c.Conns[0].TLS == nil {
+	if c.Conns[c11Target(c)].TLS == nil {
 		// no certificates: T1 ('N') and T5 (plaintext continues), inline engine
 		viol2, r, _ := modelCheck("C11", x, c)
 		viol = append(viol, viol2...)
@@ -317,8 +358,10 @@ func checkC11(x *Exec, c *Case) ([]Violation, bool) {
 		return viol, true
 	}
 	// reference: the same session in plaintext on an identically configured server
+	ti := c11Target(c)
 	ref := c.Clone()
 	ref.Server.TLS = ""
+	ref.Conns = []ConnCase{ref.Conns[ti]}
 	ref.Conns[0].TLS = nil
 	ref.Conns[0].Cuts = nil
 	var refSched *SchedCase
@@ -330,11 +373,11 @@ func checkC11(x *Exec, c *Case) ([]Violation, bool) {
 	rcs := rr.Conns[0]
 	refT := ParseOut(rcs)
 	v := c.Clone()
-	v.Conns[0].TLS.StepBytes = stepOutBytes(rcs, len(ref.Conns[0].Steps))
+	v.Conns[ti].TLS.StepBytes = stepOutBytes(rcs, len(ref.Conns[0].Steps))
 	r := x.Run(v)
 	v.Sched.Schedule = r.Schedule
 	*c = *v
-	cs := r.Conns[0]
+	cs := r.Conns[ti]
 	handshakeOK := cs.TLSUp
 	if handshakeOK {
 		x.Probe("tls_upgraded")
@@ -445,7 +488,7 @@ func checkC11(x *Exec, c *Case) ([]Violation, bool) {
 func init() {
 	register(&Prop{
 		ID: "C11", Level: "exploration", QuickS: 30, ThoroughS: 480,
-		Rule: "seeded TLS scenarios: server configured without TLSConfig / with an empty TLSConfig / with a certificate (1 in 8: expired or not yet valid at the TLS stack's clock - nobody verifies it); client behaviours: SSLRequest then a real crypto/tls handshake (TLS 1.2 or 1.3) then a generated session (simple and extended queries, failing handlers, Terminate) inside TLS; SSLRequest with a plaintext startup+Query stuffed behind it in the same or in the next segment; SSLRequest twice; a second SSLRequest inside TLS; CancelRequest after the upgrade; peer vanishing after 1-60 handshake bytes; against the certificate-less configs SSLRequest -> 'N' -> fresh plaintext startup, SSLRequest twice, or CancelRequest. The TLS client is a real goroutine and, like the server goroutine, a task of the seeded scheduler; both byte directions are tapped below TLS. Oracle: the answer is exactly one byte ('S' iff certificates), everything the server writes afterwards parses as TLS records and neither tapped direction contains the per-run canary carried by every query text and command tag, the decrypted stream and the callback trace equal those of the same session run in plaintext on an identically configured server, stuffed plaintext never reaches a callback, cancel/odd negotiations get no reply and no callback and the connection is closed, the run terminates; every case is E2 variant: the SSLRequest of a connection accepted just before Server.Close signalled the shutdown is answered with the same single byte; non-trivial; distinct = distinct case content hashes; configuration routes (TLSConfig option, exported field assigned after NewServer, certificate added afterwards); clients that let 50 ms - 1 h of simulated time pass between steps (the transport honours deadlines against the fake clock); variant tls-close-during-command: Server.Close pinned inside a running command of the TLS session, compared with the plaintext equivalent under the same Close; startup packets of other protocol versions (1.0, 2.0, 4.0, 3.99, ...) behind the SSLRequest; declined SSLRequests are also judged differentially: transcript and callbacks equal those of the same bytes sent on a fresh connection",
+		Rule: "seeded TLS scenarios: server configured without TLSConfig / with an empty TLSConfig / with a certificate (1 in 8: expired or not yet valid at the TLS stack's clock - nobody verifies it); client behaviours: SSLRequest then a real crypto/tls handshake (TLS 1.2 or 1.3) then a generated session (simple and extended queries, failing handlers, Terminate) inside TLS; SSLRequest with a plaintext startup+Query stuffed behind it in the same or in the next segment; SSLRequest twice; a second SSLRequest inside TLS; CancelRequest after the upgrade; peer vanishing after 1-60 handshake bytes; against the certificate-less configs SSLRequest -> 'N' -> fresh plaintext startup, SSLRequest twice, or CancelRequest. The TLS client is a real goroutine and, like the server goroutine, a task of the seeded scheduler; both byte directions are tapped below TLS. Oracle: the answer is exactly one byte ('S' iff certificates), everything the server writes afterwards parses as TLS records and neither tapped direction contains the per-run canary carried by every query text and command tag, the decrypted stream and the callback trace equal those of the same session run in plaintext on an identically configured server, stuffed plaintext never reaches a callback, cancel/odd negotiations get no reply and no callback and the connection is closed, the run terminates; every case is E2 variant: the SSLRequest of a connection accepted just before Server.Close signalled the shutdown is answered with the same single byte; non-trivial; distinct = distinct case content hashes; configuration routes (TLSConfig option, exported field assigned after NewServer, certificate added afterwards); clients that let 50 ms - 1 h of simulated time pass between steps (the transport honours deadlines against the fake clock); variant tls-close-during-command: Server.Close pinned inside a running command of the TLS session, compared with the plaintext equivalent under the same Close; startup packets of other protocol versions (1.0, 2.0, 4.0, 3.99, ...) behind the SSLRequest; a sixth of the TLS sessions contain a statement that writes its rows in bursts with 1 ms - 1 s of simulated time in between; a share of the TLS sessions connect after 3-5 peers whose TLS negotiation failed have come and gone; declined SSLRequests are also judged differentially: transcript and callbacks equal those of the same bytes sent on a fresh connection",
 		Components: []string{
 			"real: Handshake/potentialConnUpgrade/sslUnsupported, crypto/tls server and client (deterministic Rand and Time), the whole serving path on top of the tls.Conn",
 			"stub: raw duplex connection (simulated, tapped, every Read/Write of either party a schedule point), certificate (ed25519, generated in-process from a fixed seed), handler programs",
